@@ -920,3 +920,246 @@ sec_p1(const rkey *k, const impl_t *m)
 done:
 	free(em); free(sig); free(ref); free(em2); free(pos);
 }
+
+/* ------------------------------------------------------------------ */
+/* Section PSS */
+
+/* EMSA-PSS-ENCODE (RFC 8017 9.1.1) into the nlen-byte string em (with the
+   leading zero byte when emLen < nlen). Returns 0 if it does not fit. */
+static int
+ref_pss_encode(unsigned char *em, const rkey *k, const hdesc *hf, const hdesc *mgf,
+	const unsigned char *mhash, const unsigned char *salt, size_t slen)
+{
+	static const unsigned char z8[8] = { 0 };
+	size_t embits = (size_t)k->bits - 1, emlen = (embits + 7) >> 3, hl = hf->hlen;
+	unsigned char *e = em + (k->nlen - emlen), *H;
+	size_t dbl;
+
+	if (emlen < hl + slen + 2) return 0;
+	memset(em, 0, k->nlen);
+	dbl = emlen - hl - 1;
+	H = e + dbl;
+	ref_hash(hf, H, z8, 8, mhash, hl, salt, slen);
+	e[dbl - slen - 1] = 0x01;
+	memcpy(e + dbl - slen, salt, slen);
+	ref_mgf1_xor(mgf, e, dbl, H, hl);
+	e[0] &= (unsigned char)(0xFF >> (8 * emlen - embits));
+	e[emlen - 1] = 0xBC;
+	return 1;
+}
+
+static EVP_PKEY_CTX *
+pss_ctx(const rkey *k, int sign, const hdesc *hf, const hdesc *mgf, size_t slen)
+{
+	EVP_PKEY_CTX *c = EVP_PKEY_CTX_new(k->pkey, NULL);
+	if (!c || (sign ? EVP_PKEY_sign_init(c) : EVP_PKEY_verify_init(c)) != 1
+		|| EVP_PKEY_CTX_set_rsa_padding(c, RSA_PKCS1_PSS_PADDING) != 1
+		|| EVP_PKEY_CTX_set_signature_md(c, hf->mdf()) != 1
+		|| EVP_PKEY_CTX_set_rsa_mgf1_md(c, mgf->mdf()) != 1
+		|| EVP_PKEY_CTX_set_rsa_pss_saltlen(c, (int)slen) != 1)
+		HARNESS_FAIL("pss-ctx");
+	return c;
+}
+
+static void
+pss_check_vrfy(const impl_t *m, const br_rsa_public_key *pk, const unsigned char *sig, size_t siglen,
+	const hdesc *hf, const hdesc *mgf, const unsigned char *mhash, size_t slen,
+	int expect, const char *key, const char *what)
+{
+	unsigned char *s = vf_dup(sig, siglen), *hh = vf_dup(mhash, hf->hlen);
+	uint32_t r = m->pvrfy(s, siglen, hf->bc, mgf->bc, hh, slen, pk);
+	if (memcmp(s, sig, siglen) != 0)
+		vf_viol("C10:pss:vrfy-modified-signature", "pss_vrfy modified its input signature", "%s", g_ctx);
+	if ((r != 0) != (expect != 0) || (r != 0 && r != 1))
+		vf_viol(key, what, "%s hf=%s mgf=%s slen=%u expect=%d got=%u mhash=%s sig=%s", g_ctx, hf->name, mgf->name,
+			(unsigned)slen, expect, r, vf_hexs(mhash, hf->hlen), vf_hexs(sig, siglen));
+	free(s); free(hh);
+}
+
+static void
+sec_pss(const rkey *k, const impl_t *m)
+{
+	size_t nlen = k->nlen, emlen = ((size_t)k->bits + 6) >> 3;
+	long ncombo = budget(k, m, 1, 2, g_tier ? 72 : 12);
+	long npos = budget(k, m, 0, 16, g_tier ? 1200 : 100);
+	long it;
+	pkv pv, pz;
+	unsigned char *sig = xmalloc(nlen), *em = xmalloc(nlen), *em2 = xmalloc(nlen), *osig = xmalloc(nlen);
+	size_t *pos = xmalloc((nlen + 1) * sizeof *pos);
+	br_hmac_drbg_context dc;
+
+	if (!m->psign || !m->pvrfy) { vf_stat("impl_unavailable", 1); goto done; }
+	mk_pk(&pv, k, 0, 0);
+	mk_pk(&pz, k, 1 + vf_below(&R, 3), vf_below(&R, 2));
+	drbg_init(&dc);
+	for (it = 0; it < ncombo; it ++) {
+		/* enumerate the 36 (hf, mgf) pairs in an order that depends on the unit */
+		unsigned pi = (unsigned)((unsigned long)it * 7 + (unsigned)g_unit * 5) % 36;
+		const hdesc *hf = &HASHES[pi / 6], *mgf = &HASHES[pi % 6];
+		unsigned char mh[64], salt[600];
+		long maxs = (long)emlen - (long)hf->hlen - 2;
+		size_t slen;
+		uint32_t r;
+		skv sv;
+		unsigned char *so;
+
+		vf_bytes(&R, mh, hf->hlen);
+		mk_sk_var(&sv, k, (int)(it & 3));
+		so = xmalloc(nlen);
+		if (maxs < 0) {
+			/* modulus too small for this hash: both directions must fail */
+			r = m->psign(&dc.vtable, hf->bc, mgf->bc, mh, 0, &sv.sk, so);
+			CMP("pss_too_small");
+			if (r != 0)
+				vf_viol("C10:pss:sign-modulus-too-small", "pss_sign succeeded although hash+salt+2 > emLen",
+					"%s hf=%s slen=0", g_ctx, hf->name);
+			vf_bytes(&R, so, nlen); so[0] = 0;
+			CMP("pss_too_small");
+			pss_check_vrfy(m, &pv.pk, so, nlen, hf, mgf, mh, 0, 0, "C10:strict:pss-modulus-too-small", "pss_vrfy accepted although hash+salt+2 > emLen");
+			free(so); free_sk(&sv);
+			continue;
+		}
+		switch (it % 5) {
+		case 0: slen = hf->hlen; break;
+		case 1: slen = 0; break;
+		case 2: slen = (size_t)maxs; break;
+		default: slen = vf_range(&R, 0, (uint32_t)maxs); break;
+		}
+		if ((long)slen > maxs) slen = (size_t)maxs;
+		vf_distinct("config", "pss/%s/%s/%s/%s/s%u", m->name, k->name, hf->name, mgf->name,
+			slen == 0 ? 0u : slen == (size_t)maxs ? 9999u : slen == hf->hlen ? 1u : 2u);
+
+		/* salt too long by one: sign and verify fail */
+		r = m->psign(&dc.vtable, hf->bc, mgf->bc, mh, (size_t)maxs + 1, &sv.sk, so);
+		CMP("pss_too_small");
+		if (r != 0)
+			vf_viol("C10:pss:sign-modulus-too-small", "pss_sign succeeded although hash+salt+2 > emLen",
+				"%s hf=%s slen=%ld", g_ctx, hf->name, maxs + 1);
+
+		/* made here -> verified by OpenSSL and here */
+		memset(so, 0x5A, nlen);
+		r = m->psign(slen == 0 && (it & 8) ? NULL : &dc.vtable, hf->bc, mgf->bc, mh, slen, &sv.sk, so);
+		memcpy(sig, so, nlen);
+		free(so);
+		CMP("pss_sign_openssl_verifies");
+		{
+			EVP_PKEY_CTX *c = pss_ctx(k, 0, hf, mgf, slen);
+			int v = r == 1 ? EVP_PKEY_verify(c, sig, nlen, mh, hf->hlen) : -2;
+			EVP_PKEY_CTX_free(c);
+			if (v != 1) {
+				ERR_clear_error();
+				vf_viol("C10:pss:openssl-rejects", "OpenSSL rejects a PSS signature made here (or pss_sign returned 0)",
+					"%s hf=%s mgf=%s slen=%u sk=%s r=%u v=%d mhash=%s sig=%s", g_ctx, hf->name, mgf->name, (unsigned)slen,
+					sv.desc, r, v, vf_hexs(mh, hf->hlen), vf_hexs(sig, nlen));
+			}
+		}
+		free_sk(&sv);
+		if (r == 1) {
+			CMP("pss_roundtrip");
+			pss_check_vrfy(m, &pv.pk, sig, nlen, hf, mgf, mh, slen, 1, "C10:pss:roundtrip", "pss_vrfy rejects a signature made by pss_sign");
+		}
+
+		/* made by OpenSSL -> verified here (plain n and n with leading zeros) */
+		{
+			EVP_PKEY_CTX *c = pss_ctx(k, 1, hf, mgf, slen);
+			size_t ol = nlen;
+			if (EVP_PKEY_sign(c, osig, &ol, mh, hf->hlen) != 1 || ol != nlen) HARNESS_FAIL("pss-openssl-sign");
+			EVP_PKEY_CTX_free(c);
+		}
+		CMP("pss_vrfy_openssl_sig");
+		pss_check_vrfy(m, &pv.pk, osig, nlen, hf, mgf, mh, slen, 1, "C10:pss:vrfy-rejects-openssl", "pss_vrfy rejects an OpenSSL PSS signature");
+		CMP("pss_vrfy_leading_zero_n");
+		pss_check_vrfy(m, &pz.pk, osig, nlen, hf, mgf, mh, slen, 1, "C10:pss:vrfy-leading-zero-n", "pss_vrfy with leading zero bytes in n differs");
+		if (it == 0) vf_sample("{\"sec\":\"pss\",\"impl\":\"%s\",\"key\":\"%s\",\"hf\":\"%s\",\"mgf\":\"%s\",\"slen\":%u,\"mhash\":\"%s\"}",
+			m->name, k->name, hf->name, mgf->name, (unsigned)slen, vf_hexs(mh, hf->hlen));
+
+		/* wrong parameters on a good signature */
+		{
+			unsigned char mh2[64];
+			memcpy(mh2, mh, hf->hlen);
+			mh2[vf_below(&R, (uint32_t)hf->hlen)] ^= (unsigned char)(1u << vf_below(&R, 8));
+			CMP("pss_strict_params");
+			pss_check_vrfy(m, &pv.pk, osig, nlen, hf, mgf, mh2, slen, 0, "C10:strict:pss-wrong-hash", "pss_vrfy accepted with a different message hash");
+			if ((long)slen < maxs) {
+				CMP("pss_strict_params");
+				pss_check_vrfy(m, &pv.pk, osig, nlen, hf, mgf, mh, slen + 1, 0, "C10:strict:pss-wrong-salt-length", "pss_vrfy accepted with salt length + 1");
+			}
+			if (slen > 0) {
+				CMP("pss_strict_params");
+				pss_check_vrfy(m, &pv.pk, osig, nlen, hf, mgf, mh, slen - 1, 0, "C10:strict:pss-wrong-salt-length", "pss_vrfy accepted with salt length - 1");
+			}
+			if (mgf != &HASHES[3]) {
+				CMP("pss_strict_params");
+				pss_check_vrfy(m, &pv.pk, osig, nlen, hf, mgf == &HASHES[3] ? &HASHES[1] : &HASHES[3], mh, slen, 0,
+					"C10:strict:pss-wrong-mgf-hash", "pss_vrfy accepted with another MGF1 hash");
+			}
+			CMP("pss_strict_len");
+			pss_check_vrfy(m, &pv.pk, osig + 1, nlen - 1, hf, mgf, mh, slen, 0, "C10:strict:pss-wrong-length", "pss_vrfy accepted a signature of wrong length");
+			{
+				unsigned char *b = xmalloc(nlen + 1);
+				BIGNUM *s = bn_from(osig, nlen);
+				b[0] = 0; memcpy(b + 1, osig, nlen);
+				CMP("pss_strict_len");
+				pss_check_vrfy(m, &pv.pk, b, nlen + 1, hf, mgf, mh, slen, 0, "C10:strict:pss-wrong-length", "pss_vrfy accepted a signature of wrong length");
+				BN_add(s, s, k->n);
+				if (BN_num_bytes(s) <= (int)nlen) {
+					BN_bn2binpad(s, b, (int)nlen);
+					CMP("pss_strict_s_plus_n");
+					pss_check_vrfy(m, &pv.pk, b, nlen, hf, mgf, mh, slen, 0, "C10:strict:pss-sig-not-below-n", "pss_vrfy accepted s + n");
+				}
+				BN_free(s); free(b);
+			}
+		}
+
+		/* forged encodings: own encoder accepted; any altered byte rejected */
+		vf_bytes(&R, salt, slen);
+		if (!ref_pss_encode(em, k, hf, mgf, mh, salt, slen)) HARNESS_FAIL("pss-encode");
+		if (!forge_priv(k, sig, em)) HARNESS_FAIL("pss-em-ge-n");
+		{
+			/* harness self-check against OpenSSL */
+			EVP_PKEY_CTX *c = pss_ctx(k, 0, hf, mgf, slen);
+			if (EVP_PKEY_verify(c, sig, nlen, mh, hf->hlen) != 1) HARNESS_FAIL("pss-encoder-vs-openssl");
+			EVP_PKEY_CTX_free(c);
+		}
+		CMP("pss_vrfy_own_encoding");
+		pss_check_vrfy(m, &pv.pk, sig, nlen, hf, mgf, mh, slen, 1, "C10:pss:vrfy-rejects-rfc8017-encoding", "pss_vrfy rejects a valid RFC 8017 EMSA-PSS encoding");
+		{
+			size_t must[16], nm = 0, np_, u, off = nlen - emlen, dbl = emlen - hf->hlen - 1;
+			must[nm ++] = 0; must[nm ++] = off; must[nm ++] = nlen - 1; must[nm ++] = nlen - 2;
+			must[nm ++] = off + dbl; must[nm ++] = off + dbl - 1;
+			must[nm ++] = off + dbl - slen - 1; must[nm ++] = off + (dbl - slen - 1) / 2;
+			np_ = pick_positions(pos, nlen, (size_t)(npos / (ncombo > 4 ? 4 : 1) + 8), must, nm);
+			for (u = 0; u < np_; u ++) {
+				memcpy(em2, em, nlen);
+				em2[pos[u]] = alt_byte(em[pos[u]], (unsigned)(u + (size_t)it));
+				if (!forge_priv(k, sig, em2)) { vf_stat("forge_skipped_ge_n", 1); continue; }
+				CMP("pss_strict_altered_byte");
+				pss_check_vrfy(m, &pv.pk, sig, nlen, hf, mgf, mh, slen, 0, "C10:strict:pss-altered-byte", "pss_vrfy accepted an encoding with one altered byte");
+			}
+			/* unused top bits set before masking is part of the above (byte `off`) */
+			vf_max("pss_positions_per_em", (long long)np_);
+		}
+	}
+	/* oversized modulus */
+	{
+		br_rsa_public_key pe;
+		const hdesc *h = &HASHES[3];
+		size_t bl = (BR_MAX_RSA_SIZE >> 3) + 1;
+		unsigned char *b = xmalloc(bl), mh[32];
+		uint32_t r;
+		pe.n = xmalloc(bl); pe.nlen = bl;
+		vf_bytes(&R, pe.n, bl);
+		pe.n[0] = 0x01; pe.n[bl - 1] |= 1;
+		pe.e = bn_buf(k->e, 0, &pe.elen);
+		vf_bytes(&R, b, bl); vf_bytes(&R, mh, 32);
+		b[0] = 0;
+		r = m->pvrfy(b, bl, h->bc, h->bc, mh, 32, &pe);
+		CMP("pss_oversized_modulus");
+		if (r != 0)
+			vf_viol("C10:strict:pss-oversized-modulus", "pss_vrfy returned 1 with a 4097-bit modulus", "%s", g_ctx);
+		free(b); free(pe.n); free(pe.e);
+	}
+	free_pk(&pv); free_pk(&pz);
+done:
+	free(sig); free(em); free(em2); free(osig); free(pos);
+}
